@@ -26,7 +26,7 @@ deriving BEq, Repr, Inhabited
 
 /-- strict first-order primitives: evaluated after their arguments (left to right) -/
 inductive Prim where
-  | arith (op : String)          -- + - * on int, + on string, < > <= >= on int   (Go operators)
+  | arith (op : String)          -- + - * / on int, + on string, < > <= >= on int   (Go operators)
   | eq | ne                      -- frt.OpEqual / frt.OpNotEqual
   | not                          -- frt.OpNot
   | tup | fst | snd              -- frt.NewTuple2 / frt.Fst / frt.Snd
@@ -182,6 +182,8 @@ def primFO : Prim → List FO → Option (Trace × FO)
   | .arith "+", [.lit (.int x), .lit (.int y)] => some ([], .lit (.int (x + y)))
   | .arith "-", [.lit (.int x), .lit (.int y)] => some ([], .lit (.int (x - y)))
   | .arith "*", [.lit (.int x), .lit (.int y)] => some ([], .lit (.int (x * y)))
+  | .arith "/", [.lit (.int x), .lit (.int y)] =>
+    if y = 0 then none else some ([], .lit (.int (Int.tdiv x y)))   -- Go: truncated toward zero; / 0 panics
   | .arith "+", [.lit (.str x), .lit (.str y)] => some ([], .lit (.str (x ++ y)))
   | .arith "<", [.lit (.int x), .lit (.int y)] => some ([], .lit (.bool (x < y)))
   | .arith ">", [.lit (.int x), .lit (.int y)] => some ([], .lit (.bool (x > y)))
